@@ -24,7 +24,7 @@ class C03(Prop):
     pid = "C03"
     prop_file = "Props/C03.v"
     module = "Props.C03"
-    gen_deps = ["Table", "StripFn", "ParserFn", "WinconFn"]
+    gen_deps = ["Table", "StripFn", "ParserFn", "WinconFn", "StreamFn"]
     harness = ("h-core", "hcore")
     nontrivial_rule = ("cases: all 2^(n-1) partitions of short escape-rich inputs (n<=11) and of random grammar inputs (n<=9 quick, 12 thorough); seeded random "
                        "partitions (single-byte, fixed stride, random cuts) of long grammar streams; byte API cut anywhere, text API cut at character boundaries. "
